@@ -337,7 +337,7 @@ pub fn tnode(p: TreeParams) -> BoxedStrategy<TNode> {
     // level d is a leaf with probability 1/4 (1 at d = 0), otherwise a decision over level d-1
     let leaf = leaf_spec(p.out_dim, p.in_dim, p.pool_pct).prop_map(TNode::Leaf).boxed();
     let present = (p.present_pct as f64 / 100.0).min(0.999_999);
-    let max_rows = if p.k >= 4 { 2usize } else { 1 };
+    let max_rows = if p.k >= 8 { 3usize } else if p.k >= 4 { 2 } else { 1 };
     let mut level: BoxedStrategy<TNode> = leaf.clone();
     for d in 1..=p.max_depth {
         let inner = level.clone();
